@@ -557,8 +557,11 @@ func (a *Analyzer) Feed(r *ev.Rec) {
 		if strings.HasPrefix(r.Note, "faulty follower:") && a.rep.Stats["fault:wipe-follower"] > 0 {
 			sig = "no-progress:wiped-follower-refused-as-faulty"
 		}
+		if strings.HasPrefix(r.Note, "no leader: uncommitted self-demotion:") {
+			sig = "no-progress:uncommitted-self-demotion-needs-own-vote"
+		}
 		a.find("C17", "no-progress-after-faults-stopped", sig, r.Q, "no convergence within %d ticks after faults stopped: %s", r.Cnt, r.Note)
-		if a.rep.Stats["compactions"] > 0 && sig != "no-progress:wiped-follower-refused-as-faulty" {
+		if a.rep.Stats["compactions"] > 0 && sig != "no-progress:wiped-follower-refused-as-faulty" && sig != "no-progress:uncommitted-self-demotion-needs-own-vote" {
 			// C09: compaction must not leave a node that cannot be brought up to date
 			a.find("C09", "not-brought-up-to-date-after-compaction", "after-compaction:"+sig, r.Q, "logs were compacted in this run and afterwards: %s", r.Note)
 		}
@@ -582,6 +585,11 @@ func (a *Analyzer) Feed(r *ev.Rec) {
 		a.stat("foreign-dialer:" + r.Kind)
 		if r.Kind == "no-election" {
 			a.find("C20", "foreign-peer-suppresses-elections", "", r.Q, "cluster %d: the leader %d is gone for 40 heartbeat timeouts, but the followers elect nobody while a node of another cluster with the leader's node id keeps dialling them (every attempt is refused at the identity handshake)", r.Cid, r.Nid)
+		}
+	case "bounded-election":
+		a.stat("bounded-election:" + r.Kind)
+		if r.Kind == "no-election" {
+			a.find("C17", "healthy-majority-elects-nobody", "", r.Q, "cluster %d: the leader %d has been silent for 40 heartbeat timeouts; a majority of the voters of the committed configuration is running and connected (node %d among them, promoted by a configuration it has not received), and nobody is elected: %s", r.Cid, r.Nid, r.ID, r.Note)
 		}
 	case "pending-action-after-transfer":
 		a.stat("pending-actions-after-failed-transfer:" + r.Kind)
